@@ -445,7 +445,7 @@ class Engine:
             parts = split_top(inner)
             ety = parts[0]
             pty, base = take_type(parts[1])
-            idx = [take_type(p) for p in parts[2:]]
+            idx = [take_type(p[8:] if p.startswith('inrange ') else p) for p in parts[2:]]
             p = self.val(st, base, pty, mod)
             return self.gep(st, mod, ety, p, idx)
         if tok.startswith('bitcast') or tok.startswith('addrspacecast'):
@@ -1235,6 +1235,18 @@ class Engine:
             v = self.val(st, x, t1, mod)
             if v.size() < 64: v = z3.ZeroExt(64 - v.size(), v)
             env[ins.dst] = self.inttoptr(st, v)
+            return
+        if op == 'atomicrmw':
+            bop, pty, p, ty, v = a
+            ptr = self.val(st, p, pty, mod)
+            oldv = self.load(st, ptr, ty, mod, self.where(fr, ins))
+            x = self.val(st, v, ty, mod)
+            newv = {'add': lambda: oldv + x, 'sub': lambda: oldv - x, 'xchg': lambda: x, 'and': lambda: oldv & x, 'or': lambda: oldv | x,
+                    'xor': lambda: oldv ^ x}.get(bop)
+            if newv is None:
+                raise Unsupported('atomicrmw ' + bop)
+            self.store(st, ptr, z3.simplify(newv()), ty, mod, self.where(fr, ins))
+            env[ins.dst] = oldv
             return
         if op == 'unreachable':
             return ('dead',)
